@@ -25,6 +25,10 @@ type Shape struct {
 	SleepMs  int    `json:"sleep_ms,omitempty"`
 	SleepVia string `json:"sleep_via,omitempty"`
 
+	// Mem: the memory defined by the module that contains the cycle: "" none | "nomax" (no declared
+	// maximum: can grow to 65536 pages) | "max" (declared maximum)
+	Mem string `json:"mem,omitempty"`
+
 	// how the cycle is entered
 	Entry string `json:"entry"` // "export" | "callback" | "import" | "import2" | "start" | "_start"
 	// 0 = never terminates; otherwise the cycle stops after Limit rounds (control group)
@@ -90,6 +94,12 @@ func buildCycle(s *Shape) []byte {
 	tP2 := m.AddType([]byte{e.I32, e.I64}, []byte{e.I32, e.I64})
 	const gG = 0
 	m.Globals = []e.Global{{Type: e.I32, Mut: true, Init: e.NewB().I32Const(0).Bytes()}}
+	switch s.Mem {
+	case "nomax":
+		m.Mems = [][]byte{e.Limits(1, -1, false)}
+	case "max":
+		m.Mems = [][]byte{e.Limits(1, 2, false)}
+	}
 	m.Tables = [][]byte{e.TableType(e.FuncRef, 4, 4)}
 	m.Elems = [][]byte{e.ActiveElemFuncs(0, []uint32{fLeaf, fF0, fF0 + 1, fF0 + 2})}
 	slotOf := func(i int) int32 { return int32(1 + i) }
